@@ -26,4 +26,16 @@ signature check -/
 theorem trusting_order : Facts.c07_trusting_order =
     ["safeMul", "GetByAddress", "VoteSignBytes", "VerifySignature"] := by decide
 
+/-- `crypto.AddressSize` (model: `addressSize`, defined from the fact) and `MaxVotesCount` (the size of
+the largest sets the thorough stream drives) -/
+theorem address_size_and_max_votes : Facts.c07_AddressSize = 20 ∧ Facts.c07_MaxVotesCount = 10000 := by decide
+
+/-- `ValidatorSetFromProto` recomputes the total and never reads the one on the wire (model:
+`valSetFromProto` ignores `WireValSet.total`; `decoded_set_wellformed`) -/
+theorem fromProto_recomputes_total :
+    Facts.c07_fromProto_recomputes_total = true ∧ Facts.c07_fromProto_reads_wire_total = false := by decide
+
+/-- `CanonicalizeBlockID` maps exactly the zero block id to nil (model: `canonBlockID` tests `isZero`) -/
+theorem canonical_nil_test : Facts.c07_canonical_nil_test = "rbid == nil || rbid.IsZero()" := by decide
+
 end Tmv.Expect.C07
